@@ -42,7 +42,13 @@ def split_reads(w):
     E = [W.read_of("mi%d_gA" % i, "chr1", W.exons(8000, [0, 1]), polya=False) for i in range(6)]
     E += [W.read_of("efsm%d_gB" % i, "chr1", W.exons(1000, [0, 1, 2, 3, 4]), polya=False) for i in range(4)]
     E += [W.read_of("emono%d_gB" % i, "chr2", [[1650, 1780]], polya=False) for i in range(2)]
-    return {"A": A, "B": B, "C": [dict(r) for r in A], "E": E,
+    # G: A's reads with six records written twice (a BAM merged with itself); H: B's reads with one duplicated record.  Exact duplicates
+    # are ignored - in every experiment, however many duplicates the process has already seen
+    mapped_a = [r for r in A if not r.get("unmapped") and not r.get("secondary")]
+    mapped_b = [r for r in B if not r.get("unmapped") and not r.get("secondary")]
+    G = [dict(r) for r in A] + [dict(r) for r in mapped_a[:6]]
+    H = [dict(r) for r in B] + [dict(mapped_b[3])]
+    return {"A": A, "B": B, "C": [dict(r) for r in A], "E": E, "G": G, "H": H,
             # D: two files with labels, F: two files without labels (technical replicas: IsoQuant groups by file name)
             "D": [A[0::2], A[1::2]], "F": [B[0::2], B[1::2]]}
 
@@ -186,9 +192,12 @@ def run(ctx):
             if n == 3 and not (set(seq) <= set("ABC") or set(seq) <= set("ADE") or set(seq) <= set("BDF") or set(seq) <= set("DEF")):
                 continue
             seqs.append(seq)
+    seqs += [("G",), ("H",), ("G", "H"), ("H", "G"), ("A", "H"), ("H", "A"), ("G", "B")]
+    if not quick:
+        seqs += [("G", "H", "A"), ("A", "G", "H"), ("G", "A", "H")]
     jobs = []
     for seq in seqs:
-        new = bool(set(seq) & set("DEF"))
+        new = bool(set(seq) & set("DEFGH"))
         for threads in (1, 2):
             for syntax in ("yaml", "list"):
                 if quick and new and (threads == 2) != (syntax == "list"):
